@@ -39,6 +39,7 @@ EXPLANATION = (
     "`default_nzu64` / `default_i64`) is, for each kind of number (unsigned, above i64::MAX, negative), among the helpers the "
     "validator *registers* for that kind (`DefaultImpl::U64|NZU64|I64`, whose emitted function names are read from the "
     "DefaultImpl -> tokens table) — the name is only a string in an attribute, the registration is what defines the function."
+    " (D10) no floating-point number is cast to an integer type without an enclosing range comparison; (D11) every accepting exit of the validator's fixed-length-array arm is dominated by a condition that mentions the declared length; (W3) the one allowed write of an annotation is `default = None` under a test that the default is `null`, wherever it sits."
 )
 ASSUMPTIONS = ["serde_json::Value::as_* / is_* semantics as documented", "the rendered literal's numeric value is not decided (see DESIGN.md)"]
 
